@@ -12,6 +12,7 @@ A test case counts as deterministic only if two in-process executions agree; oth
 
 from __future__ import annotations
 
+import os
 import random
 import re
 
@@ -883,7 +884,7 @@ def _run_slow(ctx, sp, modname, alias, reps, configs, ks):
                     ctx.anomaly("both-executors-finish-above-budget")
                 continue
             cal2 = calibrate()
-            if max(cal, cal2) > 0.4:
+            if max(cal, cal2) > float(os.environ.get("C31_OVERLOAD_S", "0.4")):  # (the self-test raises it to see the witness path)
                 ctx.anomaly("slow-test-disagreement-on-overloaded-machine")
                 ctx.inconclusive_because(f"slow test disagreed 3/3 but a trivial subprocess execution takes {max(cal, cal2):.2f}s (machine overloaded)")
                 continue
